@@ -29,6 +29,14 @@
 //!   `from_static` of the two forms, `udsp` = `str::parse::<Endpoint>()`, `udst` = `TryFrom<String>`,
 //!   `tcps` = `from_static`, `tcpn` = `Endpoint::new(String)` (what generated `connect()` calls),
 //!   `tcpb` = `Channel::builder(uri)`, `tcpc` = `Channel::from_shared`. Same prediction as `uds` / `tcp`.
+//! * `e2a <L|E> <outcomes> <ops over c, d, A>` — scripts in which the application ABANDONS calls: `A` is
+//!   a call whose future is dropped as soon as it has to wait for a connection attempt (the attempt it
+//!   triggers is held in progress by the scripted connector until the call is gone, then goes on and
+//!   ends as the script says, with nobody waiting for it); an `A` that needs no new attempt completes
+//!   like `c`. Observed `A:a<attempts>`. Own model (`Model/ReconnectAbandon`: the buffer worker forgets
+//!   a cancelled request without touching the service, `Reconnect` stays in `Connecting`) and own
+//!   oracle (`Spec/ReconnectAbandon`). The code as found hands the failure of the abandoned call's
+//!   attempt to the NEXT call: known finding C14-F1.
 use super::*;
 
 #[derive(Clone)]
@@ -160,8 +168,56 @@ pub(super) fn generate_x(thorough: bool, rng: &mut Rng, out: &mut Vec<String>) {
         "e2d L z FS ac",
         "e2d L s S aac",
         "e2c L S aac",
+        // a call abandoned while its attempt is in progress: the attempt's failure goes to the NEXT
+        // call (finding C14-F1; witness of C14_abandon_spec_fails first), its connection is used
+        "e2a L FS Ac",
+        "e2a L FS Acc",
+        "e2a L SS Ac",
+        "e2a L FF Acc",
+        "e2a L FS AAc",
+        "e2a L FS AdAc",
+        "e2a E SFS dAcc",
+        "e2a E SSS dAdc",
+        "e2a E SFS Ac",
+        "e2a L XS Acc",
+        "e2a L fS Acc",
+        "e2a L sF AdcdAc",
+        "e2a L - AA",
+        "e2a E F A",
     ] {
         out.push(c.to_string());
+    }
+    // ---- e2a: every script with an abandoned call up to the bound ----
+    let ops_max = if thorough { 7 } else { 5 };
+    for m in modes {
+        for ops in all_strings_upto(&['c', 'd', 'A'], ops_max) {
+            if !ops.contains('A') {
+                continue;
+            }
+            let calls = ops.chars().filter(|c| *c != 'd').count();
+            let attempts = calls + if m == "E" { 1 } else { 0 };
+            if !thorough && ops.len() == ops_max && attempts > 4 {
+                let all_s: String = "S".repeat(attempts);
+                let alt: String = (0..attempts).map(|i| if i % 2 == 0 { 'F' } else { 'S' }).collect();
+                let alt2: String = (0..attempts).map(|i| if i % 2 == 0 { 'S' } else { 'F' }).collect();
+                for outs in [all_s, alt, alt2] {
+                    out.push(format!("e2a {} {} {}", m, tok(&outs), tok(&ops)));
+                }
+                continue;
+            }
+            for outs in all_strings(&['F', 'S'], attempts) {
+                out.push(format!("e2a {} {} {}", m, tok(&outs), tok(&ops)));
+            }
+        }
+    }
+    let n = if thorough { 2000 } else { 150 };
+    for _ in 0..n {
+        let m = *rng.pick(&modes);
+        let olen = rng.range(1, if thorough { 16 } else { 10 }) as usize;
+        let ops = rand_string(rng, &[('c', 4), ('A', 3), ('d', 2)], olen);
+        let alen = rng.range(0, olen as u64 + 2) as usize;
+        let outs = rand_string(rng, &[('F', 3), ('S', 4), ('X', 1), ('f', 1), ('s', 2), ('x', 1)], alen);
+        out.push(format!("e2a {} {} {}", m, tok(&outs), tok(&ops)));
     }
     // ---- e2c: every fault script up to the bound (as e2n) ----
     let ops_max = if thorough { 6 } else { 4 };
